@@ -31,10 +31,13 @@ def run(ctx):
                         defines={"MaxSteps": 1, "Strict": "FALSE", "InitAll": "TRUE"})
     model_content = set(m.printed("CONTENT_FIELDS")[0])
     model_unhashed = set(m.printed("UNHASHED_CONTENT_FIELDS")[0])
-    strict = ctx.tlc("Incremental", "Incremental_mc.cfg", timeout=3000, count=False,
-                     defines={"MaxSteps": 1, "Strict": "TRUE", "InitAll": "FALSE"})
-    if strict.invariant not in ("SkipSound", "MetaApplied"):
-        raise vk.Inconclusive("the strict model does not exhibit the named deviations (vacuous): %s" % strict.log)
+    # the strict forms must fail: the named deviations are reachable in the model
+    for cfg, inv in (("Incremental_strict_skip.cfg", "SkipSound"), ("Incremental_strict_meta.cfg", "MetaApplied")):
+        strict = ctx.tlc("Incremental", cfg, timeout=3000, count=False,
+                         defines={"MaxSteps": 1, "Strict": "TRUE", "InitAll": "FALSE"})
+        if strict.invariant != inv:
+            raise vk.Inconclusive("the strict model does not violate %s (named deviation unreachable, vacuous): %s" % (
+                inv, strict.log))
     ctx.notes.append("model-derived content-affecting option fields: %s; not covered by the option hash: %s" % (
         sorted(model_content), sorted(model_unhashed)))
 
@@ -90,9 +93,12 @@ def run(ctx):
             resp = list(r["expected"]["view_fields"])
         else:
             resp = [f for f in fields if single_flag.get((why, e["base"], f))]
-        if not resp:
-            resp = fields
-        sig = "C38:%s:%s" % (why, "+".join(sorted(set(resp)))) if resp else "C38:%s" % why
+        if resp:
+            sigs = ["C38:%s:%s" % (why, f) for f in sorted(set(resp))]     # one signature per responsible field
+        elif fields:
+            sigs = ["C38:%s:%s" % (why, "+".join(sorted(set(fields))))]    # only the combination is responsible
+        else:
+            sigs = ["C38:%s" % why]
         a = bases[e["base"]]
         detail = {"line": r["line"], "why": why, "base": e["base"], "changed": dict(zip(fields, vars_)), "fault": e["fault"],
                   "state": e["state"], "skip": e["skip"], "expected": r["expected"],
@@ -100,7 +106,8 @@ def run(ctx):
                   "docs_that_differ": [[x, y] for x, y in zip(a["view"]["docs"], e["view"]["docs"]) if x != y][:4]
                   if why in CONTENT_WHYS else [],
                   "nfields": len(fields)}
-        found.setdefault(sig, []).append(detail)
+        for sig in sigs:
+            found.setdefault(sig, []).append(detail)
     for sig in sorted(found):
         ds = sorted(found[sig], key=lambda x: (x["nfields"], x["line"]))
         det = ds[0]
